@@ -283,6 +283,19 @@ fn judge(cell: &Cell, srv: &HttpsServer, info: &mut CaseInfo) -> Verdict {
     if got != want {
         return Verdict::fail(format!("C29/{}/expected={:?}/got={:?}", cellname, want, got), ctx_msg);
     }
+    // a second CA announcing the same repository in the same run: the table applies to it as well
+    // (the collector answers it from the outcome cached for the run)
+    let ca2 = ta_ca_cert(3, &ca_repo(c), if c.has_notify { Some(&notify) } else { None });
+    let got2 = match run.repository(&ca2) {
+        Ok(Some(r)) if r.is_rrdp() => Transport::Rrdp,
+        Ok(Some(_)) => Transport::Rsync,
+        Ok(None) => Transport::Nothing,
+        Err(_) => return Verdict::fail(format!("C29/run-failed/policy={:?}/outcome={:?}", c.policy, c.outcome), "Run::repository failed the run for the second CA of the repository"),
+    };
+    if got2 != want {
+        return Verdict::fail(format!("C29/{}/second-ca-of-repository/expected={:?}/got={:?}", cellname, want, got2), format!("{}; a second CA with the same rpkiNotify / caRepository asked in the same run got {:?}", ctx_msg, got2));
+    }
+    let rsync_calls = rsync_log(cell.dir.path());
     // transports really exercised
     let module_line = format!("{}/{}", rsync_host(c), c.module);
     let rsync_used = rsync_calls.iter().any(|l| *l == module_line);
